@@ -424,6 +424,9 @@ class State:
             return TOP
         if h == "cmp" or h == "not" or h == "streq" or h == "ovf":
             return Dom(0, 1)
+        if (h == "ld" and sv[1][1] and sv[1][1][-1] == ("len",)) or (h == "proj" and sv[2] and sv[2][-1] == ("len",)):
+            # the length of a slice / Vec / String: allocations never exceed isize::MAX bytes (std::alloc / slice documentation)
+            return Dom(0, 2 ** 63 - 1)
         if h == "cast":
             inner = self.dom(sv[2], depth + 1)
             tr = dom_of_type(sv[1])
@@ -758,7 +761,24 @@ class State:
         if d.lo == d.hi:
             self.assume(sv, d.lo)
 
+    def _top_bit_test(self, op, a, b):
+        """(x & 2^k) == 0 / != 0 where 2^k is the top bit of x's unsigned type: x < 2^k / x >= 2^k"""
+        for m, z in ((a, b), (b, a)):
+            if const_val(z) == 0 and isinstance(m, tuple) and m[0] == "bin" and m[1] == "BitAnd":
+                for x, k in ((m[3], m[4]), (m[4], m[3])):
+                    ck = const_val(k)
+                    tr = dom_of_type(m[2])
+                    if isinstance(ck, int) and ck > 0 and ck & (ck - 1) == 0 and tr.lo == 0 and tr.hi == 2 * ck - 1 and not is_const(x):
+                        if op == "Eq":
+                            self.set_dom(x, Dom(0, ck - 1))
+                        else:
+                            self.set_dom(x, Dom(ck, tr.hi))
+                        return True
+        return False
+
     def assume_cmp(self, op, a, b):
+        if op in ("Eq", "Ne") and self._top_bit_test(op, a, b):
+            return
         if op == "Lt":
             self.add_le(a, b, -1)
         elif op == "Le":
